@@ -100,6 +100,7 @@ def run_property(pid, tier, seed):
                     nxt.add(k)
         todo = sorted(nxt)
     keys = sorted(done)
+    t_gen = time.time() - t0
     jobs, fn_infos, problems = [], [], []
     for g in gens:
         if g["status"] != "ok":
@@ -122,6 +123,7 @@ def run_property(pid, tier, seed):
             for i, r2 in zip(idx, again):
                 r2["backends"] = {**results[i]["backends"], **r2["backends"]}
                 results[i] = r2
+    t_solve = time.time() - t0 - t_gen
     bounded = []
     for b in spec.get("bounded", []):
         try:
@@ -129,6 +131,12 @@ def run_property(pid, tier, seed):
         except Exception as e:
             bounded.append(dict(name=getattr(b, "__name__", "bounded"), status="crash", error=f"{type(e).__name__}: {e}",
                                 tb=traceback.format_exc()))
+    print(f"[{pid}] phases: generate {t_gen:.1f}s, solve {t_solve:.1f}s, bounded {time.time() - t0 - t_gen - t_solve:.1f}s")
+    slow = sorted(results, key=lambda r: -sum(b.get("seconds", 0) for b in r["backends"].values()))[:5]
+    for r in slow:
+        tt = sum(b.get("seconds", 0) for b in r["backends"].values())
+        if tt > 8:
+            print(f"[{pid}] slow obligation {tt:.1f}s {r['name'][:150]} { {k: v['result'] for k, v in r['backends'].items()} }")
     return report.conclude(pid, tier, seed, reg, spec, keys, fn_infos, problems, jobs, results, bounded, time.time() - t0)
 
 
